@@ -14,6 +14,7 @@ import multiprocessing
 import os
 import random
 import re
+import sys
 import time
 
 from . import common, gwdriver, suite, tlc
@@ -432,6 +433,22 @@ def check(prop: str) -> int:
                 init, events = concretise(focus, mc, covers[len(covers) // 2])
                 rep.sample({"source": f"TLC cover of MC_{focus}", "init_ver": init["ver"],
                             "events": [{k: v for k, v in e.items() if k in ("k", "n", "c", "cmd", "t", "p", "buf", "fault")} for e in events]})
+        refinement = {"C07": ("MC_ledger", "spec/Ledger.tla", ["LedgerInv", "Refines", "LedgerStepProps"], 3, 4),
+                      "C08": ("MC_ledger", "spec/Ledger.tla", ["LedgerInv", "Refines", "LedgerStepProps"], 3, 4),
+                      "C11": ("MC_idrule", "spec/IdRule.tla", ["RuleInv", "Refines", "RuleStepProps"], 4, 5)}.get(prop)
+        if refinement:
+            # the reference refines the small rule proved without bounds (TLAPS, spec/proofs; ./check proofs)
+            mod, target, formulas, dq, dt = refinement
+            depth = dq if tier == "quick" else dt
+            text = re.sub(r"MaxDepth = \d+", f"MaxDepth = {depth}", open(os.path.join(workdir, mod + ".cfg")).read())
+            with open(os.path.join(workdir, mod + "_run.cfg"), "w") as fil:
+                fil.write(text)
+            out = tlc.run(workdir, mod, mod + "_run.cfg", workers=4)
+            summ = tlc.summary(out)
+            if summ["violated"] or summ["error"] or not summ["generated"]:
+                common.machinery_failure(f"{mod}: the reference no longer refines {target} ({summ['violated']}):\n" + out[-3000:])
+            summ["formulas_checked"] = formulas
+            rep.add_tlc(f"{mod} depth {depth} (refinement of {target}, proved in spec/proofs)", summ)
         # random deep behaviours of the unfocused model (all features interacting)
         sim = run_sim(150 if tier == "quick" else 2500, 25 if tier == "quick" else 40, common.seed() * 31 + int(prop[1:]), workdir)
         sim_hists = [h for h in sim["covers"] if "faults" not in spec or has_fault(sim, h) == spec["faults"]]
@@ -467,7 +484,11 @@ def check(prop: str) -> int:
         shutil.rmtree(workdir, ignore_errors=True)
         traces = execute(jobs)
         # executions recorded from the repository's own gateway tests (harness/suite.py)
-        sdoc = suite.record()
+        try:
+            sdoc = suite.record()
+        except Exception as err:  # noqa: BLE001 - an additional source of executions: its absence is recorded, not fatal
+            print(f"note: no executions recorded from the repository's tests ({type(err).__name__}: {str(err)[:200]})", file=sys.stderr)
+            sdoc = {"traces": [], "skipped": [], "pytest_tail": [f"recorder failed: {type(err).__name__}"]}
         straces = suite.as_traces(sdoc)
         for t in straces:
             if t["direct"] and prop == "C04":
